@@ -431,6 +431,64 @@ def run(ctx):
             ctx.undec('R-ENCODING', norm(c)[:40], where, 'encoding is not a literal')
         else:
             ctx.ok('R-ENCODING', norm(c)[:40], where, 'writer and reader default: %r' % rdef)
+    # ---- R-DATEDEFAULT: a date the writer makes up is written in the format the reader parses
+    ctx.rule('R-DATEDEFAULT', 'the default revision date is formatted with the format string the reader parses the date line with')
+    rfmts = set(const_str(c.args[1]) for c in walk_expr(rd) if isinstance(c, ast.Call) and isinstance(c.func, ast.Attribute) and c.func.attr == 'strptime' and len(c.args) == 2
+                and const_str(c.args[1]) and 'WDATE' in norm(c.args[0]))
+    kdate = consts.get('DATE_LINE')
+    if kdate is None or kdate - 1 >= len(prints) or not rfmts:
+        ctx.undec('R-DATEDEFAULT', 'date line', where, 'date line of the writer or the strptime format of the reader not found')
+    else:
+        pd_ = prints[kdate - 1]
+        dfl = [c.args[2] for c in walk_expr(pd_) if isinstance(c, ast.Call) and dotted(c.func) == 'getattr' and len(c.args) == 3 and const_str(c.args[1]) == 'WDATE']
+        if not dfl:
+            ctx.ok('R-DATEDEFAULT', 'WDATE', where, 'no made-up default')
+        for d_ in dfl:
+            d_ = locs.get(d_.id, d_) if isinstance(d_, ast.Name) else d_
+            fm_ = [const_str(c.args[0]) for c in walk_expr(d_) if isinstance(c, ast.Call) and isinstance(c.func, ast.Attribute) and c.func.attr == 'strftime' and c.args]
+            if fm_ and fm_[0] in rfmts:
+                ctx.ok('R-DATEDEFAULT', 'WDATE', where, 'default written with %r, parsed with %r' % (fm_[0], sorted(rfmts)))
+            elif isinstance(d_, ast.Constant):
+                ctx.undec('R-DATEDEFAULT', 'WDATE', where, 'constant default %r' % (d_.value,))
+            else:
+                ctx.violation(Finding('R-DATEDEFAULT', RP, W, pd_, 'a file without WDATE gets the revision date %s, but the reader parses that field with %s: the file just written does not re-open '
+                                      '(and is not detected)' % (norm(d_)[:50], sorted(rfmts))))
+    # ---- R-NAMESPLIT: the column-name line is cut at separators; a name is whatever stands between them
+    ctx.rule('R-NAMESPLIT', 'reader: the names on the column line are what stands between the separators (str.split), not what a character class matches')
+    nameb = [st for st in iter_stmts(rd.body) if isinstance(st, ast.If) and 'n_header_lines' in norm(st.test) and isinstance(st.test, ast.Compare) and norm(st.test.left) == 'li']
+    done_ns = False
+    for b_ in nameb:
+        for st in iter_stmts(b_.body):
+            if isinstance(st, ast.Assign) and norm(st.targets[0]) == 'variables' and not done_ns:
+                done_ns = True
+                if any(isinstance(c, ast.Call) and (dotted(c.func) or '').startswith('re.') for c in walk_expr(st.value)):
+                    ctx.violation(Finding('R-NAMESPLIT', RP, 'ffi1001.__init__', st, 'the column names are collected with a regular expression (%s): a name with a character outside the class (PM2.5, NO2-LIF) '
+                                          'is cut in pieces, the reader sees too many columns and the file it wrote itself does not re-open' % norm(st.value)[:50]))
+                elif any(isinstance(c, ast.Call) and isinstance(c.func, ast.Attribute) and c.func.attr == 'split' for c in walk_expr(st.value)):
+                    ctx.ok('R-NAMESPLIT', 'column line', 'src/PseudoNetCDF/%s ffi1001.__init__' % RP, norm(st.value)[:50])
+                else:
+                    ctx.undec('R-NAMESPLIT', 'column line', 'src/PseudoNetCDF/%s ffi1001.__init__' % RP, 'names from %s' % norm(st.value)[:50])
+    if not done_ns:
+        ctx.undec('R-NAMESPLIT', 'column line', 'src/PseudoNetCDF/%s ffi1001.__init__' % RP, 'assignment of the column names not found')
+    # ---- R-SAMEINDEX: the per-variable tables are all read at the index of the variable
+    ctx.rule('R-SAMEINDEX', 'reader: in the loop over the variables every per-variable list (scale, missing code, units, data, LOD flags) is read at the loop index itself')
+    vloop = [st for st in iter_stmts(rd.body) if isinstance(st, ast.For) and isinstance(st.iter, ast.Call) and dotted(st.iter.func) == 'enumerate' and st.iter.args
+             and norm(st.iter.args[0]) == 'variables' and isinstance(st.target, ast.Tuple)]
+    if not vloop:
+        ctx.undec('R-SAMEINDEX', 'variable loop', 'src/PseudoNetCDF/%s ffi1001.__init__' % RP, 'loop `for vi, var in enumerate(variables)` not found')
+    for lp in vloop[:1]:
+        iv_ = lp.target.elts[0].id
+        nsi = 0
+        for st in lp.body:
+            if isinstance(st, ast.Assign) and isinstance(st.value, ast.Subscript) and isinstance(st.value.value, ast.Name) and iv_ in [x.id for x in ast.walk(st.value.slice) if isinstance(x, ast.Name)]:
+                nsi += 1
+                if norm(st.value.slice) == iv_:
+                    ctx.ok('R-SAMEINDEX', norm(st)[:30], 'src/PseudoNetCDF/%s ffi1001.__init__' % RP, 'indexed with %s' % iv_)
+                else:
+                    ctx.violation(Finding('R-SAMEINDEX', RP, 'ffi1001.__init__', st, '%s is read at %s while the other per-variable lists are read at %s: from the second dependent variable on each variable '
+                                          'gets the entry of its predecessor (a missing code that is not its own, so its missing samples come back as data)' % (
+                                              norm(st.value.value), norm(st.value.slice), iv_)))
+        ctx.floor('per-variable lists read in the variable loop', nsi, 4)
     # ---- R-LODSYM: the lower- and upper-limit-of-detection blocks of the reader use only their own names
     ctx.rule('R-LODSYM', 'reader: statements that build llod_* use no ulod_* name and vice versa (copy-paste symmetry)')
     nl = 0
